@@ -3,6 +3,7 @@ package main
 import (
 	"fmt"
 	"go/token"
+	"reflect"
 	"go/types"
 	"os"
 	"sort"
@@ -24,7 +25,15 @@ type deferred struct {
 
 type snapshot struct {
 	phis []Val
-	heap map[int]*Object
+	base map[int]*Object // the state's base map at snapshot time (shared)
+	heap map[int]*Object // copy of the delta at snapshot time (nil: not taken)
+}
+
+func (s *snapshot) get(id int) *Object {
+	if o := s.heap[id]; o != nil {
+		return o
+	}
+	return s.base[id]
 }
 
 type Frame struct {
@@ -201,7 +210,26 @@ func (e *Engine) sat(st *State, c *Term) string {
 	if c.IsFalse() {
 		return "unsat"
 	}
+	t0 := time.Now()
 	r, _ := e.sol.Check(st.pc, c, nil)
+	if d := time.Since(t0); d > 2*time.Second && os.Getenv("GSE_SLOWQ") != "" {
+		fn, fr := e.curFn(st)
+		at := ""
+		if fr != nil && fr.block != nil && fr.ip < len(fr.block.Instrs) {
+			at = exprText(e.prog, fr.block.Instrs[fr.ip].Pos()) + " " + fr.block.Instrs[fr.ip].String()
+		}
+		fmt.Fprintf(os.Stderr, "SLOWQ %.1fs %s in %s at %s (term size %d, pc %d)\n", d.Seconds(), r, fn, at, termSize(c, map[*Term]bool{}), len(st.pc))
+		if os.Getenv("GSE_SLOWQ") == "2" {
+			for i, t := range st.pc {
+				if n := termSize(t, map[*Term]bool{}); n > 200 {
+					fmt.Fprintf(os.Stderr, "   pc[%d] size %d op %s\n", i, n, t.Op)
+				}
+			}
+			pr := NewPrinter()
+			txt := pr.P(c)
+			os.WriteFile("/tmp/slowq.smt2", []byte(pr.Flush()+"\n(assert "+txt+")\n"), 0o644)
+		}
+	}
 	return r
 }
 
@@ -764,9 +792,15 @@ func (e *Engine) enterBlock(st *State, fr *Frame) {
 			}
 		}
 	}
-	if prev := fr.snaps[b]; prev != nil {
+	if prev := fr.snaps[b]; prev != nil && (prev.heap != nil || len(prev.phis) > 0) {
 		eq := e.tb.tt
+		if prev.heap == nil && !differConcretely(prev.phis, allPhis) {
+			eq = e.tb.ff // no heap snapshot was taken (all-concrete phis): cannot conclude anything
+		}
 		for i, pv := range prev.phis {
+			if eq.IsFalse() {
+				break
+			}
 			if pv == nil && allPhis[i] == nil {
 				continue
 			}
@@ -780,26 +814,34 @@ func (e *Engine) enterBlock(st *State, fr *Frame) {
 			}
 		}
 		if !eq.IsFalse() {
-			for id, po := range prev.heap {
-				co := st.heap[id]
-				if co == po || co == nil {
-					continue
+			// objects that may differ: those in either delta, plus everything if the base was compacted meanwhile
+			cmp := func(id int) {
+				if eq.IsFalse() {
+					return
+				}
+				po, co := prev.get(id), st.local(id)
+				if po == nil {
+					po = st.root[id] // object of the frozen root heap modified since the snapshot
+				}
+				if po == nil || co == nil || po == co {
+					return // allocated after the snapshot, or unchanged
 				}
 				eq = e.tb.And(eq, e.objEq(po, co))
-				if eq.IsFalse() {
-					break
+			}
+			for id := range st.heap {
+				cmp(id)
+			}
+			for id := range prev.heap {
+				if _, done := st.heap[id]; !done {
+					cmp(id)
 				}
 			}
-		}
-		if !eq.IsFalse() {
-			for id, co := range st.heap {
-				if _, ok := prev.heap[id]; ok {
-					continue
-				}
-				if ro := st.root[id]; ro != nil && ro != co {
-					eq = e.tb.And(eq, e.objEq(ro, co))
-					if eq.IsFalse() {
-						break
+			if !sameMap(prev.base, st.base) {
+				for id := range st.base {
+					if _, done := st.heap[id]; !done {
+						if _, done2 := prev.heap[id]; !done2 {
+							cmp(id)
+						}
 					}
 				}
 			}
@@ -821,11 +863,16 @@ func (e *Engine) enterBlock(st *State, fr *Frame) {
 			}
 		}
 	}
-	hp := make(map[int]*Object, len(st.heap))
-	for k, v := range st.heap {
-		hp[k] = v
+	// The heap snapshot is only needed when the phi values could compare equal at the next visit; counting
+	// loops over concrete indices (the common case, e.g. zeroing a buffer) skip it.
+	var hp map[int]*Object
+	if !allConcreteInts(allPhis) {
+		hp = make(map[int]*Object, len(st.heap))
+		for k, v := range st.heap {
+			hp[k] = v
+		}
 	}
-	fr.snaps[b] = &snapshot{phis: allPhis, heap: hp}
+	fr.snaps[b] = &snapshot{phis: allPhis, base: st.base, heap: hp}
 	if fr.counts[b] > e.cfg.MaxLoop {
 		e.inconc = append(e.inconc, fmt.Sprintf("%s: unwinding bound %d reached in %s (%s)", e.harness, e.cfg.MaxLoop, fr.fn, exprText(e.prog, fr.fn.Pos())))
 		panic(pathDead{"unwind"})
@@ -1206,3 +1253,53 @@ func dumpForkStats() {
 		fmt.Fprintf(os.Stderr, "FORKS %6d %s\n", x.v, x.k)
 	}
 }
+
+// allConcreteInts: every value is nil or a constant integer / boolean (and there is at least one integer).
+func allConcreteInts(vals []Val) bool {
+	n := 0
+	for _, v := range vals {
+		switch x := v.(type) {
+		case nil:
+		case IntV:
+			if !x.T.IsConst() {
+				return false
+			}
+			n++
+		case BoolV:
+			if !x.T.IsConst() {
+				return false
+			}
+		default:
+			return false
+		}
+	}
+	return n > 0
+}
+
+// differConcretely: some pair of corresponding constant integers differs.
+func differConcretely(a, b []Val) bool {
+	for i := range a {
+		x, ok1 := a[i].(IntV)
+		y, ok2 := b[i].(IntV)
+		if ok1 && ok2 && x.T.IsConst() && y.T.IsConst() && x.T.C != y.T.C {
+			return true
+		}
+	}
+	return false
+}
+
+func sameMap(a, b map[int]*Object) bool {
+	if len(a) != len(b) {
+		return false
+	}
+	if len(a) == 0 {
+		return true
+	}
+	// maps are reference types: identical iff a write to one shows in the other; compare by a probe key
+	for k, v := range a {
+		return b[k] == v && len(a) == len(b) && mapPtr(a) == mapPtr(b)
+	}
+	return true
+}
+
+func mapPtr(m map[int]*Object) uintptr { return reflect.ValueOf(m).Pointer() }
